@@ -10,7 +10,8 @@
 
     Proved as well (C05_roundtrip): that output [q] is accepted by the parser again, reads
     declaratively as the same question and the same records (labels, types, classes, TTLs, data
-    shapes: [map plain_record] of the two readings coincide), and is a fixed point:
+    shapes: [map plain_record] of the two readings coincide, and record by record the owner labels,
+    type, class, TTL and data reading are equal - [same_rec]), and is a fixed point:
     [uncompress q = q].  The reading of a packet is unique (C05_reading_unique), so "the same
     message" is well defined.  [q] is pointer-free by construction: it is a concatenation of
     [wire_of_labels], fixed fields and opaque data.
@@ -50,7 +51,8 @@ Theorem C05_roundtrip : forall p v, bytes_ok p -> parse p = Ok v ->
     uncompress p = Ok q /\ bytes_ok q /\ parse q = Ok v' /\ uncompress q = Ok q /\
     reading p qls qt lxa lxn lxr /\ reading q qls qt lxa' lxn' lxr' /\
     map plain_record lxa' = map plain_record lxa /\ map plain_record lxn' = map plain_record lxn /\
-    map plain_record lxr' = map plain_record lxr.
+    map plain_record lxr' = map plain_record lxr /\
+    Forall2 same_rec (lxa ++ lxn ++ lxr) (lxa' ++ lxn' ++ lxr').
 Proof. exact uncompress_roundtrip. Qed.
 Print Assumptions C05_roundtrip.
 
